@@ -47,7 +47,9 @@ pub fn id_program_ordered(n: usize, limits: &[u64], limit_first: bool) -> String
 }
 
 pub fn draw_limit(rng: &mut Rng) -> u64 {
-    match rng.below(8) {
+    match rng.below(9) {
+        // just above a power of two: the worst case of every mask-and-reject sampler
+        8 => (1u64 << *rng.pick(&[1u32, 5, 10, 20, 32, 40, 52])) + 1,
         0 => 1,
         1 => 2,
         2 => TWO53 - 1,
@@ -166,6 +168,49 @@ pub fn check_output(
     fails
 }
 
+/// Generator seeds that start with an unlucky STREAK: the first 20 outputs all have their low 6 bits
+/// above 32 (`low`), or all lie in the upper half of the 64-bit range (`high`).  A sampler that redraws
+/// a bounded number of times meets its worst case only after such a streak (about 2^-20 per call when
+/// left to chance).  Found by searching seeds through the public API; empty if none is found in budget.
+pub struct StreakSeeds {
+    pub low: Vec<u64>,
+    pub high: Vec<u64>,
+}
+
+pub fn streak_seeds() -> &'static StreakSeeds {
+    static S: std::sync::OnceLock<StreakSeeds> = std::sync::OnceLock::new();
+    S.get_or_init(|| {
+        let mut low = vec![];
+        let mut high = vec![];
+        let mut s = 1u64;
+        while (low.len() < 2 || high.len() < 2) && s < 30_000_000 {
+            let mut r = fastrand::Rng::with_seed(s);
+            let first = r.u64(..);
+            let lo_ok = first & 63 > 32;
+            let hi_ok = first >> 63 == 1;
+            if lo_ok || hi_ok {
+                let (mut l, mut h) = (lo_ok, hi_ok);
+                for _ in 0..19 {
+                    let v = r.u64(..);
+                    l = l && v & 63 > 32;
+                    h = h && v >> 63 == 1;
+                    if !l && !h {
+                        break;
+                    }
+                }
+                if l && low.len() < 2 {
+                    low.push(s);
+                }
+                if h && high.len() < 2 {
+                    high.push(s);
+                }
+            }
+            s += 1;
+        }
+        StreakSeeds { low, high }
+    })
+}
+
 /// Generator seeds whose FIRST draw is extreme: the injected "unlucky draw".
 /// `zero` makes the first 64-bit output exactly 0 (algebraic, for the wyrand
 /// step of fastrand 2.x: state + C0 == 0; verified at run time and dropped if
@@ -223,6 +268,16 @@ pub fn draw_fastrand_seed(rng: &mut Rng, stats: &mut Stats) -> u64 {
         3 if e.max.is_some() => {
             stats.inc("fired:rng_first_draw_max");
             e.max.unwrap_or(0)
+        }
+        4 => {
+            let st = streak_seeds();
+            let pool: Vec<u64> = st.low.iter().chain(st.high.iter()).copied().collect();
+            if pool.is_empty() {
+                rng.next_u64()
+            } else {
+                stats.inc("fired:rng_unlucky_streak");
+                *rng.pick(&pool)
+            }
         }
         2 if !e.high.is_empty() => {
             stats.inc("fired:rng_first_draw_highest");
